@@ -249,8 +249,23 @@ BUILTINS = {
 }
 
 
+F3_KIND = {"un_i_data": "i", "un_b_data": "b", "un_list_data": "l", "un_map_data": "m"}
+DEVIATIONS = ("lazy", "lazy_expect", "f2", "f3", "f6")
+
+
 class Interp(object):
-    def __init__(self, module, fuel=200000, lazy=False):
+    """dev: set of *deviations* from the language semantics, used only to explain what a miscompiled program
+    does (run_c01.explain); the oracle itself always runs with dev = {}.
+      lazy        `let` right-hand sides and function arguments are evaluated by need (FINDINGS F1 / F1b)
+      lazy_expect a checked down-cast to a primitive type (`expect v: Int / ByteArray / Bool / Void = data`) is only
+                  performed (possible abort) when one of the variables it binds is first used (FINDINGS F10)
+      f2          a list pattern with a tail is tried before earlier list patterns with a tail that have more
+                  elements (FINDINGS F2)
+      f3          `un_i_data` / `un_b_data` / `un_list_data` / `un_map_data` of Data of another kind do not abort as
+                  long as the result is only turned back into Data (FINDINGS F3)
+      f6          `x && False` is False without evaluating x (FINDINGS F6)"""
+
+    def __init__(self, module, fuel=200000, lazy=False, dev=()):
         self.m = module
         self.adts = M.adt_table(module.adts)
         self.fns = {f.name: f for f in module.fns}
@@ -259,7 +274,14 @@ class Interp(object):
         self.consts = {c.name: c for c in module.consts}
         self.const_vals = {}
         self.fuel = fuel
-        self.lazy = lazy
+        self.dev = set(dev)
+        if lazy:
+            self.dev.add("lazy")
+        self.lazy = "lazy" in self.dev
+        self.lazy_expect = "lazy_expect" in self.dev
+        self.f2 = "f2" in self.dev
+        self.f3 = "f3" in self.dev
+        self.f6 = "f6" in self.dev
         self.fn_clos = {}
 
     # -------------------------------------------------------------- driver
@@ -338,6 +360,8 @@ class Interp(object):
     def e_Bin(self, e, env):
         op = e.op
         if op == "&&":
+            if self.f6 and e.r.K == "Lit" and e.r.val is False:
+                return False
             return self.ev(e.l, env) and self.ev(e.r, env)
         if op == "||":
             return self.ev(e.l, env) or self.ev(e.r, env)
@@ -377,7 +401,14 @@ class Interp(object):
 
     def e_Chain(self, e, env):
         if e.kind == "and":
-            for x in e.es:
+            es = e.es
+            if self.f6 and len(es) >= 2 and es[-1].K == "Lit" and es[-1].val is False:
+                # and { e1, .., e(n-1), False } == e1 && (.. && (e(n-1) && False)): the innermost `&&` is dropped
+                for x in es[:-2]:
+                    if not self.ev(x, env):
+                        return False
+                return False
+            for x in es:
                 if not self.ev(x, env):
                     return False
             return True
@@ -405,6 +436,23 @@ class Interp(object):
 
     def e_When(self, e, env):
         v = self.ev(e.subj, env)
+        if self.f2:
+            import pats
+
+            flat = [(p, body) for alts, body in e.clauses for p in alts]
+            order = []
+            for p, body in flat:
+                pos = len(order)
+                for i, (q, _b) in enumerate(order):
+                    if pats.list_tail_order_hazard(q, p):
+                        pos = i
+                        break
+                order.insert(pos, (p, body))
+            for p, body in order:
+                env2 = dict(env)
+                if self.match(p, v, env2):
+                    return self.ev(body, env2)
+            raise Abort()
         for alts, body in e.clauses:
             for p in alts:
                 env2 = dict(env)
@@ -447,6 +495,39 @@ class Interp(object):
         return self.ev(e.body, env2)
 
     def e_Expect(self, e, env):
+        if self.lazy_expect:
+            from pats import pattern_vars
+
+            names = [n for n, _t in pattern_vars(e.pat)]
+            prim_cast = e.rhs.ty == G.DATA and e.annot is not None and e.annot[0] in ("Int", "Bytes", "Bool", "Void")
+            if names and prim_cast:
+                cast = True
+                state = {}
+
+                def perform():
+                    if "env" not in state:
+                        v = self.ev(e.rhs, env)
+                        if cast:
+                            try:
+                                v = M.from_data(v, e.annot, self.adts)
+                            except M.Mismatch:
+                                raise Abort()
+                        tmp = {}
+                        if not self.match(e.pat, v, tmp):
+                            raise Abort()
+                        state["env"] = tmp
+                    return state["env"]
+
+                def proj(name):
+                    def go():
+                        x = perform()[name]
+                        return self.force(x) if type(x) is Thunk else x
+                    return go
+
+                env2 = dict(env)
+                for n in names:
+                    env2[n] = Thunk(proj(n), None)
+                return self.ev(e.body, env2)
         v = self.ev(e.rhs, env)
         if e.rhs.ty == G.DATA and e.annot is not None and e.annot != G.DATA:
             try:
@@ -538,6 +619,8 @@ class Interp(object):
 
     def e_Builtin(self, e, env):
         args = [self.ev(a, env) for a in e.args]
+        if self.f3 and e.name in F3_KIND and type(args[0]) is not M.Opaque and args[0][0] != F3_KIND[e.name]:
+            return M.Opaque(args[0])
         return BUILTINS[e.name](*args)
 
     # -------------------------------------------------------------- patterns
@@ -592,17 +675,24 @@ class Interp(object):
         raise ValueError(k)
 
 
-def run(module, entry, args, fuel=200000, lazy=False):
+def run(module, entry, args, fuel=200000, lazy=False, dev=()):
     """entry: gast.Entry (or its name); args: python values of the parameter types.
-    Returns ("ok", data_json) | ("abort",) | ("fuel",)."""
+    Returns ("ok", data_json) | ("abort",) | ("fuel",).
+    `lazy` / `dev` select deviations from the language semantics (classification only, see Interp)."""
     if isinstance(entry, str):
         entry = [e for e in module.entries if e.fn.name == entry][0]
-    it = Interp(module, fuel, lazy)
+    it = Interp(module, fuel, lazy, dev)
     try:
         v = it.call_entry(entry, args)
         v = it.force(v)
+        if type(v) is M.Opaque:
+            v = v.d
     except Abort:
         return ("abort",)
+    except (TypeError, AttributeError):
+        if it.f3:
+            return ("abort",)  # an unchecked un_*_data result consumed as a real value
+        raise
     except (OutOfFuel, RecursionError):
         return ("fuel",)
     return ("ok", M.data_to_json(v))
